@@ -31,6 +31,7 @@ var c02Space = mkSpace("sso", []fieldDim{
 	{"ProtoB", []string{"", "post", "redirect", "artifact", "junk"}},
 	{"Dest", []string{"", "absent", "host", "slo-endpoint"}},
 	{"Relay", []string{"", "none", "url", "long-1000", "long-7000", "long-8192", "long-65536"}},
+	{"Dirty", []string{"", "failed-writes"}},
 	{"Extra", []string{"", "response-fields"}},
 	{"Transport", []string{"", "post"}},
 	{"Issuer", []string{"", "b", "unregistered", "evil+a"}},
